@@ -222,6 +222,12 @@ def check(run):
     with R.as_rule('C01.join'):
         C06.wiring(R)            # the decompressor arm of the join: contexts are kept / reset as negotiated
         C06.activate(R)          # ... and switched on whenever the reply accepts the extension
+    from . import C14 as _C14, C17 as _C17
+    _C14.swallow(R, RID='C01.dispatch')      # a Pong that write() refuses (closing, closed, transport) never aborts the loop:
+                                             # the Ping and every message after it are still delivered
+    with R.as_rule('C01.bookkeeping'):
+        _C17.reset(R)                        # the parser / stream (text tracking, validator, buffer) of a connection is not
+                                             # carried into the next one
     from . import C10
     R.rule('C01.samehread', 'frames that arrive in the same read as the handshake response are not counted against the 16 KiB '
                             'header bound (and so not dropped)', 5)
